@@ -44,6 +44,9 @@ structure S where
   evs : List Ev := []                    -- reversed
   bad : Option String := none            -- first diff of this execution (reported at `end`)
   blockedSeen : List String := []
+  failAt : Nat := 0                      -- 1-based index of the transport write call that fails (0 = none)
+  nWrites : Nat := 0
+  failNext : Bool := false               -- the harness announced that the next transport write fails
   closeSleeps : Nat := 0                 -- polls of the winning Close (grace period accounting)
   deriving Inhabited
 
@@ -137,7 +140,7 @@ def clientStep (s : S) (t : Thr) (label : String) (case : Int) : S × Thr × Lis
       let e := if s.st.closeErrSet && s.closeErr != "nil" then s.closeErr else "chclosed"
       (s, finish t, [retEv t 0 e])
     else (fail s "close error read without closed flag", t, [])
-  | "asyncWrite.pool-get" | "asyncWritev.pool-get" => (s, t, [])
+  | "asyncWrite.pool-get" | "asyncWritev.pool-get" | "CtxWrite1.tr-deadline" | "CtxWritev.tr-deadline" => (s, t, [])
   | "asyncWrite.select" | "asyncWritev.select" =>
     if case == 2 then (act s (.enqueue (pkt t)) "enqueue", t, [])
     else if case == 0 then
@@ -179,6 +182,7 @@ def senderStep (s : S) (t : Thr) (label : String) (case : Int) : S × Thr × Lis
     if case == 0 then (act s .sndRecv "sndRecv", t, []) else (act s .sndDefault "sndDefault", t, [])
   | "writeOnce.tr-writev" =>
     if s.st.trClosed then (act s (.sndWritev false) "sndWritev(fail)", { t with closeArg := "other" }, ["tr:writev:-!closed"])
+    else if s.failNext then ({ (act s (.sndWritev false) "sndWritev(injected)") with failNext := false }, { t with closeArg := "other" }, ["tr:writev:-!injected"])
     else
       let b := s.st.batch
       (act s (.sndWritev true) "sndWritev", t, [s!"tr:writev:{hexList b}"])
@@ -209,7 +213,9 @@ def isSender (n : String) : Bool := n.startsWith "S"
 
 def doStep (s : S) (tid label : String) (case : Int) (events : List String) : S :=
   let t := getThr s tid
-  let s := { s with stepNo := s.stepNo + 1 }
+  let isWrite := label.endsWith "tr-writev" || label.endsWith "tr-write"
+  let s := { s with stepNo := s.stepNo + 1, nWrites := if isWrite then s.nWrites + 1 else s.nWrites }
+  let s := { s with failNext := isWrite && s.failAt != 0 && s.nWrites == s.failAt }
   let (s, t, expected) := if isSender tid then senderStep s t label case else clientStep s t label case
   let s := setThr s t
   let s := if expected != events then
@@ -327,8 +333,9 @@ def specCheck (prop : String) (s : S) (endStatus : String) : Option String :=
         | none => none)
     else none
   -- C06: payloads accepted before Close was invoked are written and flushed before the transport is closed
+  let injected := evs.any (fun e => e.text.endsWith "!injected")
   let gaveUp := !s.st.untilW && s.closeSleeps ≥ 10     -- bounded wait: sender stalled beyond the grace period
-  let c5 := if (prop == "C06" || prop == "C05") && !gaveUp then
+  let c5 := if (prop == "C06" || prop == "C05") && !gaveUp && !injected then
       firstSome calls (fun c =>
         if isWriteKind c.kind && c.err == "nil" && (c.retStep.getD 1000000) < firstCloseBegin && !c.payload.isEmpty && trCloseStep < 1000000 then
           match pairs.find? (fun (_, d) => d.tid == c.tid && d.idx == c.idx) with
@@ -349,17 +356,24 @@ def specCheck (prop : String) (s : S) (endStatus : String) : Option String :=
           else none
         else none)
     else none
+  -- C05: IsActive is false as soon as any Close call has returned
+  let c6b := firstSome calls (fun c => if c.kind == "ia" && c.beginStep > firstCloseRet && c.retStep.isSome && c.n != 0 then
+      some s!"IsActive() returned true after a Close call had returned ({c.tid}#{c.idx})" else none)
+  -- C05 / C07: a transport failure in the sender closes the channel (transport closed, context cancelled)
+  let c6c := if injected && endStatus == "quiescent" && trCloseStep == 1000000 then some "sender transport failure did not close the channel" else none
+  let c6d := if endStatus == "steplimit" then some "execution does not terminate (a goroutine spins forever)" else none
   -- C05: the transport is closed at most once
   let c7 := if (evs.filter (·.text == "tr:close")).length > 1 then some "transport closed more than once" else none
   -- C18: non-blocking mode never parks a writer on the queue
   let c8 := if !s.st.untilW && !s.st.sync then
       firstSome s.blockedSeen (fun b => if (b.splitOn "asyncWrite").length > 1 then some s!"non-blocking mode: writer parked waiting for queue space ({b})" else none)
     else none
-  c1.orElse (fun _ => c2.orElse (fun _ => c3.orElse (fun _ => c4.orElse (fun _ => c5.orElse (fun _ => c6.orElse (fun _ => c7.orElse (fun _ => c8)))))))
+  c1.orElse (fun _ => c2.orElse (fun _ => c3.orElse (fun _ => c4.orElse (fun _ => c5.orElse (fun _ => c6.orElse (fun _ => c6b.orElse (fun _ => c6c.orElse (fun _ => c6d.orElse (fun _ => c7.orElse (fun _ => c8))))))))))
 
 def handle (prop : String) (s : S) : List String → S × String
   | ["cfg", sync, cap, until_] =>
     ({ st := { sync := sync == "1", cap := cap.toNat?.getD 1, untilW := until_ == "1" }, ctxs := [false, false, false, false] }, "ok")
+  | ["failwrite", k] => ({ s with failAt := k.toNat?.getD 0 }, "ok")
   | "thr" :: name :: ops => (setThr s { name := name, ops := ops, closeVia := "op" }, "ok")
   | "step" :: tid :: label :: case :: events =>
     let blocked := events.filter (·.startsWith "blocked=")
